@@ -1457,6 +1457,26 @@ class AsType(Elemwise):
             meta = clear_known_categories(meta)
         return meta
 
+    @functools.cached_property
+    def _cast_preserves_values(self):
+        # A predicate that is moved below the cast sees the uncast values
+        def lossless(old, new):
+            if old == new:
+                return True
+            if not (isinstance(old, np.dtype) and isinstance(new, np.dtype)):
+                return False
+            return old.kind in "iuf" and new.kind in "iuf" and np.can_cast(old, new)
+
+        old, new = self.frame._meta, self._meta
+        if self.ndim == 2:
+            return all(lossless(old.dtypes[c], new.dtypes[c]) for c in new.columns)
+        return lossless(old.dtype, new.dtype)
+
+    def _filter_passthrough_available(self, parent, dependents):
+        return self._cast_preserves_values and super()._filter_passthrough_available(
+            parent, dependents
+        )
+
     def _simplify_up(self, parent, dependents):
         if isinstance(parent, Filter) and self._filter_passthrough_available(
             parent, dependents
